@@ -211,7 +211,25 @@ def check(chk):
             chk.ob("UNIT-1", "deadline = last change (clock seconds) + hold time in seconds (%s)" % fn, ok, f.where(n),
                    detail="%s : %s + %s" % (src(v), units.dim(getattr(v, "left", None), f, env), units.dim(getattr(v, "right", None), f, env)),
                    construct=f.ident, text="deadline " + src(v))
+    # one registration, one callable: the stored registration, the pending catch-up entry and the returned key all carry the callback *as
+    # wrapped* with the switch info / caller's kwargs.  The switch controller matches and calls by that object: a catch-up entry built from the
+    # unwrapped callback fires without its arguments and is not found when the handler is removed by key.
     f = repo.func(SC, K + ".add_switch_handler_obj")
+    recs = []
+    for c in f.calls():
+        nm = c.func.id if isinstance(c.func, ast.Name) else None
+        if nm in ("RegisteredSwitch", "TimedSwitchHandler"):
+            cb = kwarg(c, "callback")
+            recs.append((nm, src(cb) if cb is not None else None, c))
+        elif nm == "SwitchHandler":
+            cb = kwarg(c, "callback") or (c.args[1] if len(c.args) > 1 else None)
+            recs.append((nm, src(cb) if cb is not None else None, c))
+    wraps = {src(x.targets[0]) for x in walk_local(f.node) if isinstance(x, ast.Assign) and isinstance(x.value, ast.Call) and call_attr(x.value) == "partial"}
+    names = {r[1] for r in recs}
+    ok = {r[0] for r in recs} == {"RegisteredSwitch", "TimedSwitchHandler", "SwitchHandler"} and len(names) == 1 and wraps <= names and bool(wraps)
+    chk.ob("PAIR-3", "the stored registration, the pending catch-up entry and the returned key of one add_switch_handler_obj carry the same, wrapped, "
+           "callback", ok, f.where(), detail="records %s, wrapped into %s" % (sorted((r[0], r[1]) for r in recs), sorted(wraps)), construct=f.ident,
+           text="one callback per registration")
     env = units.env_for(f)
     cmpn = [n for n in walk_local(f.node) if isinstance(n, ast.Compare) and "last_change" in src(n)]
     chk.ob("UNIT-1", "mid-interval catch-up test exists", bool(cmpn), f.where(), construct=f.ident, text="catch-up test present")
@@ -849,6 +867,7 @@ def _time_string_parsers(chk, repo):
 def battery():
     from sa.battery import M
     return [
+        M("catch-up entry built from the unwrapped callback", SC, "                value = TimedSwitchHandler(callback=callback,\n                                           state=state,\n                                           ms=ms)\n                self._add_timed_switch_handler(switch, key, value)\n\n        # Return the args", "                value = TimedSwitchHandler(callback=raw_callback,\n                                           state=state,\n                                           ms=ms)\n                self._add_timed_switch_handler(switch, key, value)\n\n        # Return the args", "PAIR-3", also=[(SC, "        if callback_kwargs and return_info:\n            callback = partial(callback, switch_name=switch.name, state=state, ms=ms, **callback_kwargs)", "        raw_callback = callback\n        if callback_kwargs and return_info:\n            callback = partial(callback, switch_name=switch.name, state=state, ms=ms, **callback_kwargs)")]),
         M("opposite-to-current state decided by the first switch only", SC, "        for switch in switches:\n            if state == 2:\n                handler_state = 0 if self.is_active(switch) else 1\n            else:\n                handler_state = state\n", "        handler_state = state\n        for switch in switches:\n            if handler_state == 2:\n                handler_state = 0 if self.is_active(switch) else 1\n", "TRIP-0"),
         M("hold time in ms subtracted from clock", SC, "current_time - (ms / 1000.0)", "current_time - ms", "UNIT-1"),
         M("deadline adds raw ms", SC, "key = switch.last_change + (entry.ms / 1000.0)", "key = switch.last_change + entry.ms", "UNIT-1"),
